@@ -22,4 +22,4 @@ CFG = {'streams': [{'name': 'C11',
                  'regex crate: modelled by Model/Regex.v on the generated sub-language (validated by stream C10rx); stdlib functions: Model/Stdlib.v '
                  '(validated by C13)',
                  'syntax nodes are identified by preorder index (KeyInjective: node ids distinct modulo 2^32, checked per tree in C04)',
-                 'errors returned by caller-supplied functions are ordinary (non-cancellation) errors']}
+                 'errors returned by caller-supplied functions are ordinary (non-cancellation) errors (call_errors_ok: PROVED for the stdlib, see the _stdlib corollaries and Example c11_nonvacuous)']}
